@@ -699,6 +699,9 @@ func (sc *Enc) runFaulty(p *EncPlan, env *Env, report reportFn) {
 			}
 			// the token was accepted nevertheless
 			if !got.equal(want) {
+				if got.Off != want.Off {
+					report("C16", "C16/encoder-observer/offset-after-write-fault", callSite(c), "call %d (write fault): OutputOffset=%d, fault-free %d", i, got.Off, want.Off)
+				}
 				if report("C07", "C07/fault-token-not-accepted", callSite(c), "call %d failed with the injected write error; observers %v, fault-free %v", i, got, want) {
 					return
 				}
@@ -713,6 +716,7 @@ func (sc *Enc) runFaulty(p *EncPlan, env *Env, report reportFn) {
 				cls := "C07/observers-differ-from-fault-free"
 				if got.Off != want.Off {
 					cls = "C07/output-offset-differs-from-fault-free"
+					report("C16", "C16/encoder-observer/offset-after-write-fault", callSite(c), "call %d: OutputOffset=%d, fault-free %d", i, got.Off, want.Off)
 				}
 				if report("C07", cls, callSite(c), "call %d: %v, fault-free %v", i, got, want) {
 					return
